@@ -14,7 +14,14 @@ CFG = {
                   "buildpack_uri_preserved_partial); number and order of dependencies, buildpack URI and platform are preserved; the result contains no libcnb reference "
                   "and no relative path and is a fixed point of the normalisation from any location. Tied to the code by a differential run of the "
                   "real package_composite_buildpack whose written package.toml is read back with a generic TOML reader.",
-    "level_note": "Trusted: Lean kernel; Spec/PathDenote.lean (my reading of path resolution, RFC 3986 scheme syntax, the id grammar); harness and "
+    "level_note": "Known finding C14-root-colon-segment: uriparse 0.6 refuses a scheme-less text '/' + first segment holding ':' ('/c:/x'; later "
+                  "segments and '/./c:' are accepted) although RFC 3986 allows it, so a relative dependency denoting such a path "
+                  "(err:uri-of-absolutized-path), such an absolute dependency or buildpack URI (err:read) and such a packaged location of a "
+                  "referenced id (err:uri-of-map-path) make package_composite_buildpack fail instead of being rewritten / copied; the model "
+                  "(which has no such refusal) and the theorems describe the behaviour outside that class; the driver names the deviation "
+                  "(expectedRefusal in Driver/C14.lean, computed from the case with Spec/PathDenote only) when and only when the reported error "
+                  "is the one of the route the case must end in and no invalid / missing reference comes first. "
+                  "Trusted: Lean kernel; Spec/PathDenote.lean (my reading of path resolution, RFC 3986 scheme syntax, the id grammar); harness and "
                   "driver glue. Modelled, not verified: uriparse 0.6 (scheme split, text round trip), std::path (components, join, pop), toml/serde "
                   "(the written text; 'parses again' is observed on every case, not proved). Outside the quantifier (DESIGN): scheme-less references "
                   "with authority, query or fragment; ports with leading zeros and non-canonical IPv6 literals (uriparse reprints them; not generated); "
@@ -30,12 +37,42 @@ CFG = {
             "platform absent/linux/windows; maps of 0..5 ids with "
             "absolute locations (below the scratch root, outside it, with dots and trailing slash); 14 spellings of the source location "
             "(nested, './', 'sub/..', trailing '/', '//', trailing '/.', names with ' : @ + ~ ..). The written package.toml is parsed with "
-            "toml::Value (generic tree) and, separately, with libcnb's own type (reparse flag). non-trivial = a libcnb reference is resolved "
+            "toml::Value (generic tree) and, separately, with libcnb's own type (reparse flag). "
+            "Directed families (before the sampling; sizes = 16/17, 20/21, 32/33, 64/65, 128/129, 256/257, thorough also 500, 1000, 2049): "
+            "many-deps — descriptors with that many dependencies in 8 mixtures (libcnb references cycling over 5 / 33 / n ids, distinct relative "
+            "paths, one dependency n times, round-robin of all kinds, random), each also with a reference without location / with an invalid id "
+            "placed first, last and in the middle; big-map — id->path maps of 17..257 (1000) ids built as prefixes / extensions of one another "
+            "(a, a.0, a.0/1 ..., also continuing the reserved words app, config, sbom), every id referenced once in shuffled order, one id missing; "
+            "dot-chains — k = 0..9 and the sizes: k x '..', k x 'a/..', k names then k / k+1 x '..', './' and '//' runs, against 6 source depths "
+            "(1..120 levels); long — names and paths of 255, 256, 257, 1000, 4095, 4096, 5000 characters as relative path, absolute path, URL, "
+            "URN, buildpack URI, packaged location and id; chars — 104 segments (percent-encoded blank, '%', '/', '.', '..', NUL, LF, CRLF, BOM, "
+            "UTF-8 of 2/3/4 bytes in upper and lower hex, ~ + - _ $ & ; , = ' ( ) * ! @, dots in every position, names of reserved / special "
+            "files, segments holding ':' in non-first position) each as only / middle / last segment, after '..', with trailing slash, inside an "
+            "absolute path, a URN, a URL, and as packaged location of a libcnb reference; src — 26 further source locations (percent-encoded "
+            "octets, sub-delims, dots, 40 and 120 levels, 200- and 255-character names, 30 x 'sub/..') x the options once / twice / link / twice+link; "
+            "schemes — 60 registered (all shapes: '.', '+', '-', digits), 16 unregistered (incl. mixed case) and 11 libcnb look-alike scheme names "
+            "(libcnb2, libcnbx, libcnb-x, lib, libcn, xlibcnb ...) x 7 URI forms (opaque, absolute path with dots, authority + path, relative "
+            "with dots, empty, userinfo/port/query/fragment, an id); spelling — the known-finding class for every scheme (upper / mixed case, "
+            "authority with empty path); corr-ids — 60 / 400 maps drawn from the valid ones of 49 ids that are prefixes, one-edit or case neighbours of one another "
+            "or continue a reserved word, two ids sharing a location, the location being the source directory, references to present and absent "
+            "neighbours, the same text as relative path and as id; bp-uri — 22 buildpack URIs incl. libcnb: ones, climbing and percent-encoded "
+            "paths. Option field (6th, harness only): twice = the function is called twice on the same destination, which by then holds a longer "
+            "stale package.toml; link = the last component of the source location is a symbolic link to a directory elsewhere (the result must "
+            "be the lexical one). Wide sampler 2 000 / 30 000: every dimension drawn from these pools, 1/30 of the descriptors of a threshold "
+            "size, 1/20 of the maps of 17/33/65 ids, 1/2 with an option. root-colon (known finding C14-root-colon-segment; tag root-colon=1) — "
+            "8 colon segments x the three routes by which a text '/<segment with colon>...' reaches uriparse: the path a relative dependency "
+            "denotes after climbing to '/' (from 3 source depths, alone and between other dependencies), an absolute dependency / the buildpack "
+            "URI written in package.toml, the packaged location of a libcnb reference (alone, before / after a missing or invalid reference, "
+            "unreferenced); root-colon-later — the accepted neighbours (colon in a later segment, behind '/.'); the wide sampler produces the "
+            "first route at random as well. Outside the quantifier "
+            "and not generated: raw non-ASCII / blanks in URIs (not URIs), non-UTF-8 map paths, LIBCNB: in upper case. non-trivial = a libcnb reference is resolved "
             "or refused, or a relative path containing '..' is rewritten; distinct = distinct case line",
     "trusted_base": ["Spec/PathDenote.lean: walk/denote (lexical POSIX resolution, '..' at the root stays), kindOf (RFC 3986 scheme), idOk",
                      "Model/UriSchemes.lean: the 304 scheme names of uriparse 0.6.4's registry, copied by hand-run script (modelled external)",
                      "uriparse keeps every other part of a URI text (userinfo, host, port without leading zeros, path, query, fragment)"],
     "assumptions": COMMON_ASSUME + ["packaged locations in the id -> path map are absolute and URI-safe (both callers absolutise the package dir)",
                                     "the source location is absolute and URI-safe",
-                                    "symbolic links are not considered: the normaliser is lexical by design"],
+                                    "symbolic links are not considered: the normaliser is lexical by design",
+                                    "no text of the descriptor, packaged location or denoted absolute path is '/' followed by a first segment holding ':' "
+                                    "(uriparse refuses it: known finding C14-root-colon-segment; such inputs are generated and reported as the known finding)"],
 }
